@@ -168,7 +168,7 @@ func c12Lead(k int) (pre []rj.Stmt, multi bool) {
 const c12NNest = 7
 const c12NFile = 4
 
-func c12Build(cls c12Class, file, line, nest int) *rj.Program {
+func c12Build(cls c12Class, file, line, nest int, nest2 ...int) *rj.Program {
 	pre, multi := c12Lead(line)
 	src := cls.src
 	if multi {
@@ -182,22 +182,33 @@ func c12Build(cls c12Class, file, line, nest int) *rj.Program {
 	var lib []rj.Stmt
 	var extra []*rj.File
 	lib = append(lib, &rj.BlockDef{Name: "pb", Params: []rj.Param{{Name: "p", Val: rj.S("P")}}, Body: []rj.Stmt{rj.T("pb")}})
-	switch nest {
-	case 1:
-		core = []rj.Stmt{rj.T("n1\n"), &rj.If{Cond: rj.V("cT"), Then: core}}
-	case 2:
-		core = []rj.Stmt{&rj.Range{K: "ri", V: "rv", Decl: true, X: rj.V("rS"), Body: []rj.Stmt{rj.T("it\n"), &rj.If{Cond: &rj.Bin{Op: "==", L: rj.V("ri"), R: rj.N(1)}, Then: core}}}}
-	case 3:
-		core = []rj.Stmt{rj.T("n3"), &rj.BlockDef{Name: "inplace", Body: core}}
-	case 4:
-		lib = append(lib, &rj.BlockDef{Name: "wrapc", Body: []rj.Stmt{rj.T("<\n"), &rj.YieldContent{}, rj.T(">")}})
-		core = []rj.Stmt{&rj.Yield{Name: "wrapc", HasContent: true, Content: core}}
-	case 5:
-		extra = append(extra, &rj.File{Name: "/deep/inner.jet", Body: core})
-		core = []rj.Stmt{rj.T("outer-inc\n\n"), &rj.Include{Name: rj.S("/deep/inner.jet")}}
-	case 6:
-		core = []rj.Stmt{&rj.Try{Body: []rj.Stmt{rj.T("inside-try")}}, &rj.If{Cond: rj.V("cT"), Then: []rj.Stmt{&rj.Range{X: rj.V("rS"), Body: core}}}}
+	wrap := func(core []rj.Stmt, nest, id int) []rj.Stmt {
+		sfx := ""
+		if id > 1 {
+			sfx = fmt.Sprint(id)
+		}
+		switch nest {
+		case 1:
+			return []rj.Stmt{rj.T("n1\n"), &rj.If{Cond: rj.V("cT"), Then: core}}
+		case 2:
+			return []rj.Stmt{&rj.Range{K: "ri" + sfx, V: "rv" + sfx, Decl: true, X: rj.V("rS"), Body: []rj.Stmt{rj.T("it\n"), &rj.If{Cond: &rj.Bin{Op: "==", L: rj.V("ri" + sfx), R: rj.N(1)}, Then: core}}}}
+		case 3:
+			return []rj.Stmt{rj.T("n3"), &rj.BlockDef{Name: "inplace" + sfx, Body: core}}
+		case 4:
+			lib = append(lib, &rj.BlockDef{Name: "wrapc" + sfx, Body: []rj.Stmt{rj.T("<\n"), &rj.YieldContent{}, rj.T(">")}})
+			return []rj.Stmt{&rj.Yield{Name: "wrapc" + sfx, HasContent: true, Content: core}}
+		case 5:
+			extra = append(extra, &rj.File{Name: "/deep/inner" + sfx + ".jet", Imports: []string{"/lib/blocks.jet"}, Body: core})
+			return []rj.Stmt{rj.T("outer-inc\n\n"), &rj.Include{Name: rj.S("/deep/inner" + sfx + ".jet")}}
+		case 6:
+			return []rj.Stmt{&rj.Try{Body: []rj.Stmt{rj.T("inside-try")}}, &rj.If{Cond: rj.V("cT"), Then: []rj.Stmt{&rj.Range{X: rj.V("rS"), Body: core}}}}
+		}
+		return core
 	}
+	for k := len(nest2) - 1; k >= 0; k-- {
+		core = wrap(core, nest2[k], k+2)
+	}
+	core = wrap(core, nest, 1)
 	main := &rj.File{Name: "/main.jet", Imports: []string{"/lib/blocks.jet"}}
 	files := []*rj.File{main}
 	switch file {
@@ -285,9 +296,18 @@ func c12Position(p *rj.Program, pr *rj.Printer, ref rj.Result, got rj.ImplResult
 
 var c12Space = registerSpace(&e1Space{
 	Prop: "C12", Name: "failures",
-	N:    func(th bool) int64 { return int64(len(c12Classes)) * c12NFile * c12NLines * c12NNest },
+	N: func(th bool) int64 {
+		n := int64(len(c12Classes)) * c12NFile * c12NLines * c12NNest
+		if th {
+			n *= c12NNest * c12NNest // three nestings around the failing action
+		}
+		return n
+	},
 	Gen: func(i int64, th bool) *rj.Program {
-		ix := core.Radix(i, len(c12Classes), c12NFile, c12NLines, c12NNest)
+		ix := core.Radix(i, len(c12Classes), c12NFile, c12NLines, c12NNest, c12NNest, c12NNest)
+		if th {
+			return c12Build(c12Classes[ix[0]], ix[1], ix[2], ix[3], ix[4], ix[5])
+		}
 		return c12Build(c12Classes[ix[0]], ix[1], ix[2], ix[3])
 	},
 	ExtraP: c12Position,
